@@ -510,6 +510,11 @@ class EntryGraph:
         for k in term.get('closures', []):
             if k in self.crate.inst:
                 return k
+        # a workspace function ITEM handed to a leaf (`v.sort_by(Self::order)`, `opt.map(helper)` in unwalked library code): the leaf may
+        # call it - its effects belong to this call site just like a closure's
+        for a in term.get('args', []):
+            if a.get('k') == 'const' and a.get('fnkey') in self.crate.inst and not self.crate.inst[a['fnkey']].get('is_closure'):
+                return a['fnkey']
         return None
 
     @staticmethod
@@ -789,7 +794,7 @@ class EntryGraph:
         idx = len(p.body['blocks'][ctx.callbb]['st'])
         if ctx.closure_call == 'leafclosure':
             # closure invoked by a leaf: _1 = the closure value, other params = leaf-provided values
-            if local == 1:
+            if local == 1 and ctx.body.get('is_closure'):
                 for a in t['args']:
                     at = self.term_operand(p, ctx.callbb, idx, a, depth + 1)
                     if at[0] == 'closure':
